@@ -1,4 +1,6 @@
 pub mod c01;
+pub mod c03;
+pub mod c04;
 pub mod c06;
 pub mod c07;
 pub mod c11;
@@ -12,6 +14,8 @@ pub fn run(id: &str, tier: &str) -> i32 {
     let rep = Report::new(id, tier);
     match id {
         "C01" => c01::run(&rep),
+        "C03" => c03::run(&rep),
+        "C04" => c04::run(&rep),
         "C07" => c07::run(&rep),
         "C11" => c11::run(&rep),
         "C15" => c15::run(&rep),
